@@ -248,6 +248,9 @@ func (w *World) finalOracles() {
 			sort.Strings(cl)
 			w.violate("C07", "leak/"+strings.Join(cl, "+"), "Run returned but the framework still holds descriptors:%s", kinds)
 		}
+		if w.multi() && w.p.Cfg.Listeners == 3 && w.k.UnixPathExists("/tmp/verif-sim-second.sock") {
+			w.violate("C07", "unix-path", "Rotate returned but the unix-socket file of its second listener still exists")
+		}
 		if w.p.Cfg.Network == "unix" && w.k.UnixPathExists(w.p.Cfg.Host) {
 			w.violate("C07", "unix-path", "Run returned but the unix-socket file %s still exists", w.p.Cfg.Host)
 		}
